@@ -77,6 +77,9 @@ def gen_case(rng, tier, method=None):
     else:
         opts = [1, 2, 3, n - 1, n, n + 1, None, None, rng.randint(1, n + 2)]
     bs = rng.choice(opts)
+    nondiv = [b for b in range(2, nb) if nb % b] if method in STAT else []
+    if nondiv and rng.random() < 0.3:       # remainder perturbation chunk (e.g. nb=5, bs=2: passes of 2,2,1)
+        bs = rng.choice(nondiv)
     case["bs"] = None if bs is None else max(1, bs)
     return case
 
